@@ -16,10 +16,41 @@ REPO_SRC = os.environ.get("VERIF_REPO_SRC", "/repo/src")
 def h64(obj) -> int:
     """Stable 63-bit hash of any repr-able object (signatures of cases)."""
     if not isinstance(obj, (str, bytes)):
-        obj = repr(obj)
+        obj = srepr(obj)
     if isinstance(obj, str):
         obj = obj.encode("utf-8", "surrogatepass")
     return int.from_bytes(hashlib.blake2b(obj, digest_size=8).digest(), "big") >> 1
+
+
+def sanitize(o, depth=0):
+    """Make any observation JSON-serialisable without tripping over hostile values."""
+    if o is None or isinstance(o, (bool, str)):
+        return o
+    if isinstance(o, int):
+        return o if -10**300 < o < 10**300 else f"<int {hex(o)[:40]}... {o.bit_length()} bits>"
+    if isinstance(o, float):
+        return o if o == o and abs(o) != float("inf") else f"<float {o!r}>"
+    if depth > 12:
+        return "<deep>"
+    if isinstance(o, dict):
+        return {(k if isinstance(k, str) else srepr(k)): sanitize(v, depth + 1) for k, v in o.items()}
+    if isinstance(o, (list, tuple, set, frozenset)):
+        return [sanitize(v, depth + 1) for v in o]
+    return f"<{type(o).__name__} {srepr(o)[:120]}>"
+
+
+def srepr(o):
+    """repr() that cannot raise (ints beyond the str-digits limit, broken __repr__)."""
+    try:
+        return repr(o)
+    except Exception:  # noqa: BLE001
+        if isinstance(o, int):
+            return hex(o)
+        if isinstance(o, dict):
+            return "{" + ", ".join(f"{srepr(k)}: {srepr(v)}" for k, v in o.items()) + "}"
+        if isinstance(o, (list, tuple)):
+            return "[" + ", ".join(srepr(v) for v in o) + "]"
+        return f"<unreprable {type(o).__name__}>"
 
 
 class Ctx:
@@ -65,7 +96,7 @@ class Ctx:
 
     def sample(self, obj, force=False):
         if force or len(self.samples) < self.MAX_SAMPLES:
-            self.samples.append(obj)
+            self.samples.append(sanitize(obj))
 
     def count(self, name, n=1):
         self.counters[name] = self.counters.get(name, 0) + n
@@ -78,7 +109,7 @@ class Ctx:
     def violation(self, mechanism, detail, case):
         self.violation_counts[mechanism] = self.violation_counts.get(mechanism, 0) + 1
         if self.violation_counts[mechanism] <= self.MAX_VIOLATIONS_PER_MECHANISM:
-            self.violations.append({"mechanism": mechanism, "detail": detail, "case": case})
+            self.violations.append({"mechanism": mechanism, "detail": sanitize(detail), "case": sanitize(case)})
 
     def dump(self, path):
         counters = {k: (sorted(v) if isinstance(v, set) else v) for k, v in self.counters.items()}
